@@ -589,7 +589,7 @@ class Exec:
             return z3.BoolVal(len(self.items(v, st)) > 0)
         if isinstance(v, VDict):
             return z3.BoolVal(len(v.pairs) > 0)
-        if isinstance(v, VExt):
+        if isinstance(v, (VExt, VClass, VFunc, VModule, VBuiltin)):
             return z3.BoolVal(True)
         if isinstance(v, VObj):
             for dn in ('__bool__', '__len__'):
@@ -689,7 +689,7 @@ class Exec:
         if isinstance(v, VNone):
             return ['NoneType', 'object']
         if isinstance(v, VExt):
-            return [v.name.split('.')[-1], 'object']
+            return [v.name.split('.')[-1].rstrip('()'), v.name.split('.')[0], 'object']
         return ['object']
 
     def bl(self, st, x):
